@@ -145,7 +145,7 @@ theorem callsign_rt (cs : List Char) (h : validCallsign cs) :
 /-- **velocity components, all 2 × 1023 codes of each component**: code `v + 1` with direction bit
     `sign` decodes to exactly `±v` (knots for subtype 1).  The reported ground speed and track are
     the symbolic nodes `hypot(|ew|, |ns|)` and `atan2(ew, ns)` of exactly these components (frame
-    theorem `df17_velocity_ground`). -/
+    (frame-level `es_velocity_ground`). -/
 theorem vel_gs_rt : ∀ sign, sign < 2 ^ 1 → ∀ v, v < 2 ^ 10 → v < 1023 →
     Bds09.velComponent sign (speedCode v) = .ok (signed sign v) :=
   enum2 1 10 (by decide +kernel)
